@@ -3,6 +3,7 @@ package c15
 import (
 	"fmt"
 	"math/rand"
+	"regexp"
 	"strings"
 )
 
@@ -176,6 +177,24 @@ func (g *gen) block() string {
 	return fmt.Sprintf("{%%%% var _ = %d; _ = \"%%%%}\" %%%%}", g.r.Intn(9))
 }
 
+// nearMissEnd returns a statement that looks like the end of a raw block with
+// the given marker but is not one: the keywords and the marker glued together
+// or followed by other characters. It is content of the block.
+func (g *gen) nearMissEnd(marker string) string {
+	trueEnd := regexp.MustCompile(`^\{% *end(?: +raw)? *%\}$`)
+	if marker != "" {
+		// also "{% end marker %}", that the lexer documents as an end (and the parser rejects)
+		trueEnd = regexp.MustCompile(`^\{% *end(?: +raw)? +` + regexp.QuoteMeta(marker) + ` *%\}$`)
+	}
+	for {
+		m := g.pick(marker, marker+"x", "x"+marker, "", marker+marker)
+		s := "{%" + g.pick("", " ") + "end" + g.pick("", " ", "  ") + g.pick("raw", "raw", "") + g.pick("", " ") + m + g.pick("", " ") + "%}"
+		if !trueEnd.MatchString(s) && !strings.Contains(s, "end %}") && !strings.Contains(s, "end%}") {
+			return s
+		}
+	}
+}
+
 func (g *gen) raw() string {
 	marker := ""
 	if g.r.Intn(2) == 0 {
@@ -194,7 +213,9 @@ func (g *gen) raw() string {
 		case 3:
 			b.WriteString("{# c #}")
 		case 4:
-			if marker != "" {
+			if g.r.Intn(2) == 0 {
+				b.WriteString(g.nearMissEnd(marker))
+			} else if marker != "" {
 				b.WriteString(g.pick("{% end %}", "{% end raw %}", "{%end%}", "{% end raw other %}"))
 			} else {
 				b.WriteString(g.pick("{% end for %}", "{% endraw %}", "{% end raw x %}", "{ % end % }"))
